@@ -35,5 +35,16 @@ pub fn cf_two_corner_part(part: &str, segs: Vec<&str>, area: &Area, row_delta: i
                         assert(in_area(area.sheet, r1.row as int, r1.column as int, area) && in_area(area.sheet, r2.row as int, r2.column as int, area));
 //@end
 
+/// range_link_diffs (the links recorded, and on replicas removed, by clear / delete operations): a link is taken exactly
+/// when its cell lies inside the range
+pub fn link_is_in_range(row: i32, column: i32, range: &Area) -> (r: bool)
+    requires area_small(range), small(row as int), small(column as int)
+    ensures r == in_area(range.sheet, row as int, column as int, range)
+{
+//@fragment base/src/user_model/common.rs UserModel::range_link_diffs `if row >= range.row` ..< `{`
+//@rewrite `if row >= range.row` => `row >= range.row`
+//@end
+}
+
 } // verus!
 fn main() {}
